@@ -27,6 +27,16 @@ claimed={
          "tags <= 3 bytes and addresses <= 4 bytes without ',' '{' '}' (the Sprintf key is not injective otherwise); exact decimal rendering for |n| < 10^18"),
  "C10": ("Real negotiateSecurity against an independently written decision table over all level pairs and method / cipher lists of length 0-2 (authentication half and encryption half).", "5.C10",
          "two-party agreement (both endpoints report the same outcome) and the retry loop are not yet covered"),
+ "C05": ("Real ServeConn with one raw and four authenticated handlers of differing per-command policy, arbitrary first command, arbitrary handshake result (stubbed through a seam), an authorizer that answers arbitrarily on every call, up to two follow-up commands: each handler runs for its own command, on an open connection, via the right path, on a session meeting that command's policy now and authorized by a grant obtained for that dispatch; refusals close the connection.", "5.C05",
+         "the handshake result is arbitrary (its truthfulness is C03's subject); <= 3 commands per connection"),
+ "C08": ("The decoder's literal shortcut against reference recognisers of the ClassAd lexer's literal tokens for every value text <= 6 bytes; the parsing, raw-text and skipping receivers over the same wire images (count 0-2, 0-4 strings incl. the secret marker, both framings).", "5.C08",
+         "reference recognisers (DESIGN A.4) are the trusted base; the sender-side round trip over the full expression grammar (external parser) is outside"),
+ "C09": ("Real putClassAdToMessageWithOptions on an ad whose attribute name is arbitrary (<= 13 identifier bytes), all privacy option combinations, whitelist, encrypted-attribute list, any peer version, three stream states: private values reach the wire only with opt-in (and version gate), and on a keyed stream only in frames flushed while encrypting.", "5.C09",
+         "independent private-name predicate (DESIGN A.6); second attribute fixed in the quick tier"),
+ "C16": ("ParseClaimIDStrict on sid#[info]key for arbitrary parts (<= 5 bytes each, sid may contain '#'); ExportSecSessionInfo/ImportSecSessionInfo round trip over 5120 policy combinations.", "5.C16",
+         "mint/import with real key derivation and the resume-by-claim flow are not yet covered"),
+ "C18": ("Real validateFSAuthPath/fsAddrLeaf/verifyFSPathEndpoint over arbitrary paths (<= 24/30 bytes) and connection addresses against independently written leaf shapes: accepted => directly under /tmp, one safe component, recognised shape, address-qualified names name the connected endpoint.", "5.C18",
+         "IPv4 endpoints (IPv6 texts only as an uninterpreted function); client/server filesystem effects not yet covered"),
 }
 checks=[]
 for i in ids:
